@@ -1,7 +1,7 @@
 """C04 — stream-level check (see DESIGN.md section 6)."""
 from lib import kv
 PID = "C04"
-LEVEL = "exploration"
+LEVEL = "proof"
 CMD = "c04"
 RULE = 'for each (data, configuration, hint): reference stream from jobs=1 and one Write, compared byte for byte with jobs {2,3,4,5..16,17..64}, a repeated run, random / block-aligned / 1-byte / empty Write partitions, and three runs under a perturbed schedule (random yields and sleeps at the hand-off hook points); heterogeneous data (ELF-like first block then text) every fifth case. Non-trivial = multi-block case.'
 
